@@ -144,7 +144,7 @@ def build_engine(c):
     clean_registry()
     h = Harness(schema, {"default_fields": []}, None)
     # echo resolvers
-    h.serve = lambda parent, obj, field, args, path: "ok"
+    h.serve = lambda rs, parent, obj, field, args, path: "ok"
     run_async(h.build())
     return schema, types, h
 
@@ -223,7 +223,7 @@ def check(spec, h=None):
     if h is None:
         clean_registry()
         h = Harness(schema, {"default_fields": []}, None)
-        h.serve = lambda parent, obj, field, args, path: "ok"
+        h.serve = lambda rs, parent, obj, field, args, path: "ok"
         run_async(h.build())
     h.reset_logs()
     printed = print_document(spec["doc"])
